@@ -59,7 +59,7 @@ def pooled_power(x, sensor_ax):
     return p
 
 
-@subcheck(SUBCHECKS, 'source_masks', quick=1800, thorough=30000, fuzz=4000)
+@subcheck(SUBCHECKS, 'source_masks', quick=3600, thorough=30000, fuzz=4000)
 def source_masks(d, ctx):
     m = _mm()
     which = d.choice(['ibm', 'ibm', 'wiener', 'wiener', 'wiener', 'irm', 'icm', 'psm'])
@@ -183,7 +183,7 @@ def own_percentile(v, q):
     return s[lo] + (s[hi] - s[lo]) * (pos - lo)
 
 
-@subcheck(SUBCHECKS, 'quantile_mask', quick=900, thorough=15000, fuzz=4000)
+@subcheck(SUBCHECKS, 'quantile_mask', quick=1800, thorough=15000, fuzz=4000)
 def quantile_mask(d, ctx):
     m = _mm()
     ndim = d.int(1, 4)
@@ -250,7 +250,7 @@ def quantile_mask(d, ctx):
     ctx.nontrivial(ndim >= 2)
 
 
-@subcheck(SUBCHECKS, 'quantile_mask_tuple', quick=150, thorough=2500)
+@subcheck(SUBCHECKS, 'quantile_mask_tuple', quick=300, thorough=2500)
 def quantile_mask_tuple(d, ctx):
     m = _mm()
     F, T = d.int(2, 6), d.int(8, 24)
@@ -267,7 +267,7 @@ def quantile_mask_tuple(d, ctx):
     ctx.nontrivial(True)
 
 
-@subcheck(SUBCHECKS, 'lorenz_mask', quick=900, thorough=15000, fuzz=4000)
+@subcheck(SUBCHECKS, 'lorenz_mask', quick=1800, thorough=15000, fuzz=4000)
 def lorenz_mask(d, ctx):
     m = _mm()
     ndim = d.int(2, 4)
@@ -335,7 +335,7 @@ def lorenz_mask(d, ctx):
     ctx.nontrivial(True)
 
 
-@subcheck(SUBCHECKS, 'zero_input_finite', quick=150, thorough=2000)
+@subcheck(SUBCHECKS, 'zero_input_finite', quick=300, thorough=2000)
 def zero_input_finite(d, ctx):
     m = _mm()
     ndim = d.int(1, 4)
